@@ -290,11 +290,91 @@ def render_noargs(idx):
 """
 
 
+def render_outside_guard(idx, pats):
+    """A guard that reads state outside the arguments (no bindings), for arities 0..2: the matcher must
+    evaluate it on every call, also when there is nothing to destructure."""
+    n = len(pats)
+    params = "".join(f", a{i}: u8" for i in range(n))
+    m_text = "(" + ", ".join(pats) + ") if flag()"
+    native_pat = "()" if n == 0 else (pats[0] if n == 1 else "(" + ", ".join(pats) + ")")
+    scrut = "()" if n == 0 else ("a0" if n == 1 else "(" + ", ".join(f"a{i}" for i in range(n)) + ")")
+    native_params = ", ".join(f"a{i}: u8" for i in range(n))
+    loops_open = "".join(f"for a{i} in 0..3u8 {{ " for i in range(n))
+    loops_close = "}" * n
+    args = ", ".join(f"a{i}" for i in range(n))
+    return f"""    use std::cell::Cell;
+    thread_local! {{ static FLAG: Cell<bool> = const {{ Cell::new(false) }}; }}
+    fn flag() -> bool {{ FLAG.with(|f| f.get()) }}
+    #[unimock(api=Mk)]
+    pub trait Tr {{
+        fn f(&self{params}) -> u32;
+    }}
+    #[allow(unreachable_patterns, unused_variables)]
+    fn native({native_params}) -> bool {{
+        match {scrut} {{
+            {native_pat} if flag() => true,
+            _ => false,
+        }}
+    }}
+    pub fn run() -> Result<(), String> {{
+        let mut accepted = 0usize;
+        let mut rejected = 0usize;
+        for state in [false, true, false] {{
+            FLAG.with(|f| f.set(state));
+            {loops_open}
+            let expect = native({args});
+            if expect {{ accepted += 1; }} else {{ rejected += 1; }}
+            let u = Unimock::new(Mk::f.each_call(matching!({m_text})).returns(1u32)).no_verify_in_drop();
+            let got = vh::obs::catch(|| u.f({args}));
+            let ok = match &got {{
+                Ok(1) => expect,
+                Err(msg) if msg.contains("No matching call patterns") => !expect,
+                _ => false,
+            }};
+            if !ok {{
+                return Err(format!("unordered: arguments ({args}) = {{:?}} with the outside state {{state}} {{}} by the equivalent match, but the call gave {{got:?}}", ({args}{"," if n == 1 else ""}), if expect {{ "are accepted" }} else {{ "are rejected" }}));
+            }}
+            let u = Unimock::new(Mk::f.next_call(matching!({m_text})).returns(1u32)).no_verify_in_drop();
+            let got = vh::obs::catch(|| u.f({args}));
+            let ok = match &got {{
+                Ok(1) => expect,
+                Err(msg) if msg.contains("inputs didn't match") => !expect,
+                _ => false,
+            }};
+            if !ok {{
+                return Err(format!("ordered: arguments ({args}) = {{:?}} with the outside state {{state}} {{}} by the equivalent match, but the call gave {{got:?}}", ({args}{"," if n == 1 else ""}), if expect {{ "are accepted" }} else {{ "are rejected" }}));
+            }}
+            // one mock across a change of the outside state: the guard is evaluated per call
+            {loops_close}
+        }}
+        let u = Unimock::new(Mk::f.each_call(matching!({m_text})).returns(1u32)).no_verify_in_drop();
+        FLAG.with(|f| f.set(true));
+        let first = vh::obs::catch(|| u.f({", ".join("0" for _ in range(n))}));
+        FLAG.with(|f| f.set(false));
+        let second = vh::obs::catch(|| u.f({", ".join("0" for _ in range(n))}));
+        let exp_first = native({", ".join("0" for _ in range(n))}) || {{ FLAG.with(|f| f.set(true)); let r = native({", ".join("0" for _ in range(n))}); FLAG.with(|f| f.set(false)); r }};
+        if first.is_ok() != exp_first || second.is_ok() {{
+            return Err(format!("one mock, outside state true then false: calls gave {{first:?}} then {{second:?}}"));
+        }}
+        vh::gsupport::ev(format!("{{accepted}}/{{rejected}}"));
+        Ok(())
+    }}
+"""
+
+
+OUTSIDE_GUARDS = [[], ["_"], ["0"], ["{b}"], ["_", "_"], ["1", "_"], ["eq!(&1)", "_"]]
+
+
 def run(pid, tier, replay, start):
     rep = glib.Reporter(pid)
     insts = []
     for s in shapes(tier):
         insts.append(Instance(len(insts), key(s), render(len(insts), s), s))
+    for pats in OUTSIDE_GUARDS:
+        shown = [p.replace("{b}", "b") for p in pats]
+        if any(p.startswith(("eq!", "ne!")) for p in pats):
+            continue
+        insts.append(Instance(len(insts), "outside-guard :: (" + ", ".join(shown) + ") if flag()", render_outside_guard(len(insts), shown), {"types": ["u8"] * len(pats), "alts": [shown or ["()"]]}))
     insts.append(Instance(len(insts), "matching!()", render_noargs(len(insts)), {"types": [], "alts": [[]]}))
     if replay:
         import json
